@@ -11,6 +11,10 @@ go test -vet=off -count=1 "$@" >/tmp/seeded_confirm_$ID.with.log 2>&1 && echo "$
 git apply -R "$PATCH"
 go test -vet=off -count=1 "$@" >/tmp/seeded_confirm_$ID.without.log 2>&1 && echo "$ID demo-without-change: passes (expected)" || echo "$ID demo-without-change: FAILS (unexpected)"
 git apply "$PATCH"
+# existing tests of the touched packages, with the demonstration files (DEMO_FILES, relative to the worktree) moved aside
+mkdir -p /tmp/seeded_confirm_aside_$ID
+for f in $DEMO_FILES; do [ -f "$f" ] && mv "$f" /tmp/seeded_confirm_aside_$ID/; done
 # existing tests of the touched packages (demo files moved aside would be ideal; they pass or fail independently of these packages' own tests)
 go test -vet=off -count=1 -skip "Demo|TestC[0-9][0-9]|Test_C[0-9][0-9]" $PKGS 2>&1 | grep -v "no test files" | sed "s/^/$ID existing-tests: /" | tail -12
-rm -rf /tmp/-_tmp_mut_* 2>/dev/null
+for f in $DEMO_FILES; do [ -f "/tmp/seeded_confirm_aside_$ID/$(basename $f)" ] && mv "/tmp/seeded_confirm_aside_$ID/$(basename $f)" "$f"; done
+rm -rf /tmp/seeded_confirm_aside_$ID /tmp/-_tmp_mut_* 2>/dev/null
